@@ -534,8 +534,10 @@ impl<'de, R: Read<'de>> Parser<R> {
             b'-' => {
                 self.eat_char();
                 let next = self.peek_or_null()?;
-                if next == 0 || is_delimiter(next) || is_sign_subsequent(next) {
+                if next == 0 || is_delimiter(next) || is_sign_subsequent(next) || next > 127 {
                     Token::Symbol(self.parse_symbol_suffix("-")?.into())
+                } else if next == b'.' {
+                    Token::Symbol(self.parse_sign_dot_symbol("-.")?.into())
                 } else {
                     Token::Number(self.parse_num_literal(10, false)?)
                 }
@@ -543,8 +545,10 @@ impl<'de, R: Read<'de>> Parser<R> {
             b'+' => {
                 self.eat_char();
                 let next = self.peek_or_null()?;
-                if next == 0 || is_delimiter(next) || is_sign_subsequent(next) {
+                if next == 0 || is_delimiter(next) || is_sign_subsequent(next) || next > 127 {
                     Token::Symbol(self.parse_symbol_suffix("+")?.into())
+                } else if next == b'.' {
+                    Token::Symbol(self.parse_sign_dot_symbol("+.")?.into())
                 } else {
                     Token::Number(self.parse_num_literal(10, true)?)
                 }
@@ -829,6 +833,19 @@ impl<'de, R: Read<'de>> Parser<R> {
         self.scratch.clear();
         self.scratch.extend(prefix.as_bytes());
         self.parse_symbol_scratch_suffix()
+    }
+
+    // Parses a peculiar identifier starting with a sign and a dot (R7RS 7.1.1),
+    // such as `+.foo` or `-..`; the dot has been peeked, but not consumed.
+    fn parse_sign_dot_symbol(&mut self, prefix: &str) -> Result<String> {
+        self.eat_char();
+        match self.peek_or_null()? {
+            // `+.5` would be a number, `+.` is not a valid token
+            next if next == 0 || is_delimiter(next) || next.is_ascii_digit() => {
+                Err(self.peek_error(ErrorCode::InvalidNumber))
+            }
+            _ => self.parse_symbol_suffix(prefix),
+        }
     }
 
     fn parse_symbol_scratch_suffix(&mut self) -> Result<String> {
